@@ -30,7 +30,7 @@ func (sc *Scope) fail(f string, a ...interface{}) {
 }
 
 func (e *Exec) scope(cur, old *Heap) *Scope {
-	return &Scope{e: e, c: e.c, cur: cur, old: old, params: e.params, names: e.names, pkg: e.fn.Pkg.Pkg, tracks: e.c.tracks}
+	return &Scope{e: e, c: e.c, cur: cur, old: old, params: e.params, names: e.names, pkg: pkgOf(e.fn), tracks: e.c.tracks}
 }
 
 func (e *Exec) evalBool(sc *Scope, cl Clause) string {
